@@ -1149,6 +1149,26 @@ func dependsOn(v ssa.Value, pred func(ssa.Value) bool) ssa.Value {
 		if pred(v) {
 			return v
 		}
+		// the address of a local aggregate (the array behind a slice literal or packed variadic arguments): what is
+		// stored into it
+		if sl, ok := v.(*ssa.Slice); ok {
+			a, isAlloc := sl.X.(*ssa.Alloc)
+			if isAlloc {
+				if pt, ok := a.Type().Underlying().(*types.Pointer); ok {
+					_, isAlloc = pt.Elem().Underlying().(*types.Array)
+				}
+			}
+			for _, st := range func() []*ssa.Store {
+				if isAlloc {
+					return storesInto(a)
+				}
+				return nil
+			}() {
+				if hit := rec(st.Val, depth); hit != nil {
+					return hit
+				}
+			}
+		}
 		// loads from local allocs: follow stores (also those made by closures sharing the cell)
 		if u, ok := v.(*ssa.UnOp); ok && u.Op == token.MUL {
 			if a := rootAlloc(u.X); a != nil {
